@@ -73,7 +73,7 @@ func c08Setup() (*c08Core, hackpadfs.FS, *rTree, int) {
 		desc = "all"
 	}
 	verifTag("hidden", desc)
-	core := &c08Core{fs: m, faultAt: -1}
+	core := &c08Core{fs: m, faultAt: -1, closeFaultAt: -1}
 	return core, c08Mask(core, mask), t, h
 }
 
@@ -111,12 +111,18 @@ func VerifC08Masks() {
 // reports success for work that was not done.
 func VerifC08Faults() {
 	core, fs, t, h := c08Setup()
-	fault := verifInt("fault")
-	verifAssume(fault >= 0)
-	verifAssume(fault <= verifParam("MAXFAULT"))
-	core.faultAt = fault
+	if verifChoice("fault-kind", 2) == 1 {
+		// the Close of the first handle the helper wrote through fails and loses the data (a flush on Close)
+		verifTag("fault-kind", "close-loses-data")
+		core.closeFaultAt = 0
+	} else {
+		fault := verifInt("fault")
+		verifAssume(fault >= 0)
+		verifAssume(fault <= verifParam("MAXFAULT"))
+		core.faultAt = fault
+	}
 	r := rStep(fs, t, c08Helpers[h].op, false)
-	core.faultAt = -1
+	core.faultAt, core.closeFaultAt = -1, -1
 	verifReach("helper-returned")
 	verifAssert(core.opened == core.closed, "the helper left a handle open (also on its failure paths every handle it opened is closed)")
 	if !core.fired {
@@ -285,7 +291,7 @@ func VerifC08Create() {
 	} else {
 		verifTag("target", "absent")
 	}
-	core := &c08Core{fs: m, faultAt: -1}
+	core := &c08Core{fs: m, faultAt: -1, closeFaultAt: -1}
 	mask := c08All
 	if verifChoice("hide-openfile", 2) == 1 {
 		mask &^= c08OpenFileBit
